@@ -1,19 +1,25 @@
-(* C19 Bundled spuriousSSM returns a sequence obeying its constraints, safely -- PARTIAL.
-   Proved: the search loop (as repaired: score-neutral moves count as boring and a boredom limit
-   is always in force) terminates for every sequence of random choices and every score function,
-   within (|V|+1)*bmax iterations, V the finite universe of sequences; and the loop as it was
-   before the repair has a run that never stops.  The validity predicate valid_output
-   (test_consistency) is extracted and evaluated on every traced and final sequence of the real
-   binary.  NOT proved: that constrain / mutate of the C program preserve validity (modelled in
-   Search.v, compared only through the predicate), absence of memory errors / undefined
-   behaviour (no C semantics is installed: observed under ASan + UBSan), and that the rejection
-   loop inside mutate ends (it draws until the base differs: relies on erand48 not repeating one
-   value forever). *)
+(* C19 Bundled spuriousSSM returns a sequence obeying its constraints, safely.
+   Proved on the model of the search (Search.v; the model's constrain and mutate are compared
+   exactly with the binary on every run: the "constrained S" line for start sequences given by
+   file, and every consecutive pair of traced sequences): for every consistent triple (triple_ok, a
+   boolean evaluated on every generated triple and proved to imply the Prop-level contract),
+   constrain turns ANY start sequence within the templates into a valid one (C19_constrain_valid,
+   loop invariant over the marks), a mutation of a free location to a base of its template keeps a
+   valid sequence valid (C19_mutate_valid), hence whatever the random choices and the score
+   function, every sequence the loop visits and the sequence it finally prints are valid
+   (C19_search_output_valid), valid meaning the executable predicate evaluated on the real output
+   (C19_valid_is_checked_predicate).  The loop (as repaired: score-neutral moves count as boring and
+   a boredom limit is always in force) terminates for every sequence of random choices and every
+   score function within (|V|+1)*bmax iterations; before the repair it had a run that never stops.
+   NOT provable here: absence of memory errors / undefined behaviour in the C program (no C
+   semantics is installed: observed under ASan + UBSan), and that the rejection loop inside
+   mutate ends (it draws until the base differs: relies on erand48 not repeating one value). *)
 From Coq Require Import List Arith Bool.
-From PC Require Import SSM.Search SSM.SearchProofs.
+From Coq Require Import Ascii.
+From PC Require Import Base.Codes SSM.Contract SSM.Search SSM.SearchProofs SSM.ValidProofs.
 Import ListNotations.
 
-Theorem C19_search_terminates_partial : forall (state : Type) (score_lt score_le : state -> state -> bool)
+Theorem C19_search_terminates : forall (state : Type) (score_lt score_le : state -> state -> bool)
   (propose : nat -> state -> state) (bmax : nat) (V : list state),
   (forall n s, In s V -> In (propose n s) V) ->
   (forall s, score_lt s s = false) ->
@@ -22,9 +28,42 @@ Theorem C19_search_terminates_partial : forall (state : Type) (score_lt score_le
   forall step cur, In cur V ->
   exists final n, run state score_lt score_le propose bmax ((length V + 1) * bmax) step cur 0 = Some (final, n).
 Proof. exact search_terminates. Qed.
-Print Assumptions C19_search_terminates_partial.
+Print Assumptions C19_search_terminates.
 
 Theorem C19_unrepaired_loop_diverges : forall fuel,
   run_old (fun _ _ : unit => false) (fun _ _ => true) (fun _ s => s) 1 fuel 0 tt 0 = None.
 Proof. exact old_loop_diverges. Qed.
 Print Assumptions C19_unrepaired_loop_diverges.
+
+Theorem C19_constrain_valid : forall t sq, consistent t -> in_templates t sq -> valid_all t (constrain t sq).
+Proof. exact constrain_valid. Qed.
+Print Assumptions C19_constrain_valid.
+
+Theorem C19_mutate_valid : forall t sq i b, consistent t -> valid_all t sq -> i < List.length (t_st t) ->
+  free_location t i = true -> compatible (nthc (t_st t) i) b = true -> valid_all t (mutate t sq i b).
+Proof. exact mutate_valid. Qed.
+Print Assumptions C19_mutate_valid.
+
+Theorem C19_search_output_valid : forall t sq0 (pos : nat -> list ascii -> nat) (base : nat -> list ascii -> ascii)
+  score_lt score_le bmax fuel s' k',
+  consistent t -> in_templates t sq0 ->
+  (forall k s, pos k s < List.length (t_st t) /\ free_location t (pos k s) = true /\ compatible (nthc (t_st t) (pos k s)) (base k s) = true) ->
+  run (list ascii) score_lt score_le (fun k s => mutate t s (pos k s) (base k s)) bmax fuel 0 (constrain t sq0) 0 = Some (s', k') ->
+  valid_all t s' /\ valid_all t (constrain t s').
+Proof. exact search_output_valid. Qed.
+Print Assumptions C19_search_output_valid.
+
+Theorem C19_valid_is_checked_predicate : forall t sq, consistent t -> valid_all t sq -> valid_output t sq = true.
+Proof. exact valid_all_output. Qed.
+Print Assumptions C19_valid_is_checked_predicate.
+
+Theorem C19_triple_ok_sound : forall t, triple_ok t = true -> consistent t.
+Proof. exact triple_ok_consistent. Qed.
+Print Assumptions C19_triple_ok_sound.
+
+Theorem C19_valid_shape : forall t sq, valid_all t sq -> List.length sq = List.length (t_st t) /\
+  forall j, j < List.length (t_st t) ->
+    (nthc sq j = blank <-> nthc (t_st t) j = blank) /\
+    (nthc (t_st t) j <> blank -> compatible (nthc (t_st t) j) (nthc sq j) = true).
+Proof. exact valid_shape. Qed.
+Print Assumptions C19_valid_shape.
